@@ -177,7 +177,11 @@ impl PartitionConfirmationState {
         while let Some(event) = self.unconfirmed_events.get(&next_expected) {
             if event.confirmation_count >= required_quorum {
                 new_watermark = next_expected;
-                next_expected += 1;
+                // The watermark may reach u64::MAX: there is no version beyond it
+                match next_expected.checked_add(1) {
+                    Some(next) => next_expected = next,
+                    None => break,
+                }
             } else {
                 break;
             }
